@@ -401,6 +401,12 @@ def _reuse_scenarios(quick, seed):
     scns.append({"id": "reuse/direct-entry", "target": tgt(1), "writer": {"blamed": "main", "direct_auxv": {"entry": {"module": "libc.so.6", "off": 0x100}}}, "history": [{"op": "dump"}] * 3})
     scns.append({"id": "reuse/user-mappings", "target": tgt(1), "writer": {"blamed": "main", "user_mappings": [{"start": {"region_map": "code"}, "size": 8192, "name": "/user/lib code.so", "id_hex": "00112233445566778899aabbccddeeff"}]},
                  "history": [{"op": "dump"}] * 3})
+    # a size limit that a fresh writer just does not reach (no stack is shortened), and one it does reach, on a writer that is used
+    # again and again for a target with more than 20 threads: the limit is the caller's, every dump decides by the same number
+    nthr = 30 + 2
+    fresh_estimate = 252 + 48 * nthr + nthr * 8192 + 65536
+    for nm, lim in (("just-not-reached", fresh_estimate + 16384), ("reached", fresh_estimate - 50000)):
+        scns.append({"id": f"reuse/size-limit-{nm}", "target": tgt(30), "writer": {"blamed": "main", "size_limit": lim}, "history": [{"op": "dump"}] * 4})
     # principal mapping given, then withdrawn
     scns.append({"id": "reuse/principal-withdrawn", "target": tgt(2), "writer": {"blamed": "main", "skip": True, "principal": {"region": "code", "off": 64}},
                  "history": [{"op": "dump"}, {"op": "set", "writer": {"principal": "unset"}}, {"op": "dump"}]})
@@ -893,17 +899,23 @@ def _c03_event(run):
     counters = {c["slot"]: c for c in after["counters"]}
     sends = [s for d in run["dumps"] for s in d.get("steps", []) if s.get("k") == "send" and s.get("rc") == 0]
     exits = {s["slot"] for d in run["dumps"] for s in d.get("steps", []) if s.get("k") == "exit" and s.get("gone")}
+    # the tracer of each thread at the moment a dump request returned (any of the requests of the scenario)
+    atret = {}
+    for d in run["dumps"]:
+        for x in d.get("at_return", []):
+            if x.get("tracer") not in (0, None):
+                atret[x["tid"]] = x["tracer"]
     ths = []
     for slot, t in enumerate(report["threads"]):
         task = tasks.get(t["tid"])
         c = counters.get(slot, {})
-        ths.append({"slot": slot, "alive": task is not None, "state": (task or {}).get("state", "?"), "tracer": (task or {}).get("tracer", 0),
-                    "heartbeat": t["mode"] == "heartbeat", "hbAdvancing": c.get("heartbeat1", 0) > c.get("heartbeat0", 0),
+        ths.append({"slot": slot, "alive": task is not None, "state": (task or {}).get("state", "?"), "tracer": (task or {}).get("tracer", 0), "tracerAtReturn": atret.get(t["tid"], 0),
+                    "heartbeat": t["mode"] in ("heartbeat", "vfork"), "hbAdvancing": c.get("heartbeat1", 0) > c.get("heartbeat0", 0),
                     "sentRt": sum(1 for s in sends if s["slot"] == slot and s["sig"] == "rt"), "gotRt": c.get("rt", 0),
                     "sentStd": sum(1 for s in sends if s["slot"] == slot and s["sig"] == "usr1"), "gotStd": c.get("usr1", 0),
                     "exitedByPlan": slot in exits})
     main = tasks.get(report["pid"])
-    ths.append({"slot": -1, "alive": main is not None, "state": (main or {}).get("state", "?"), "tracer": (main or {}).get("tracer", 0), "heartbeat": False,
+    ths.append({"slot": -1, "alive": main is not None, "state": (main or {}).get("state", "?"), "tracer": (main or {}).get("tracer", 0), "tracerAtReturn": atret.get(report["pid"], 0), "heartbeat": False,
                 "hbAdvancing": False, "sentRt": 0, "gotRt": 0, "sentStd": 0, "gotStd": 0, "exitedByPlan": False})
     outcomes = [d.get("outcome") for d in run["dumps"]]
     exp = scn.get("expect", {}).get("outcome", "ok")
@@ -962,6 +974,12 @@ def _c03_scenarios(quick, seed):
         s = mk(f"all-dropped/{k}", [], writer={"blamed": "main"})       # (no signals: a thread without a stack cannot run a handler)
         s["target"] = {"shared": True, "threads": [{"mode": "rsp0"} for _ in range(n)], "main_rsp0": True}
         scns.append(s)
+    # a thread that cannot stop for a while: it sits in vfork() until its child exits (1.5 s).  The attach succeeds, the stop is
+    # reported only then; whatever the dump does meanwhile, afterwards nothing may be left attached and the thread runs on
+    for k, at in enumerate([{"hook": "suspended"}, {"hook": "attach:ok", "slot": 0}]):
+        s = mk(f"slow-stop/vfork/{k}", [{"at": at, "do": "signal", "sig": "rt", "to_slot": 0}], settle_ms=2200)
+        s["target"] = {"shared": True, "threads": [{"mode": "heartbeat"}, {"mode": "vfork", "vfork_ms": 1500}, {"mode": "pause", "stack_pages": 2, "sp_off": 6000}], "regions": [{"name": "app0", "len": 256}]}
+        scns.append(s)
     # two dumps in a row on one writer, signals in between and during
     scns.append(dict(mk("twice", [{"at": {"hook": "suspended"}, "do": "signal", "sig": "rt", "to_slot": 0}]), history=[{"op": "dump"}, {"op": "dump", "actions": [{"at": {"hook": "attach:ok", "slot": 1}, "do": "signal", "sig": "rt", "to_slot": 1}]}]))
     return scns
@@ -972,6 +990,8 @@ def c03(ck):
     util.mc_design(ck, "Ptrace", "MC_Ptrace", "tracer/kernel/target model: 3 threads (one sandbox thread), a queued signal per thread sent at any moment, thread exit, stop_process succeeding/failing/timing out, a hard failure at any stream step; invariants NoneLeftAttached, NoDup, NoLoss, C04 schedule invariants; liveness: every thread eventually runs with all signals delivered",
                    workers=6, timeout=2400)
     util.mc_design(ck, "Ptrace", "MC_Ptrace_allsandbox", "the same model with every thread (the leader included) a sandbox thread: all are attached, skipped and dropped, the dump goes on without threads; same invariants and liveness",
+                   workers=4, timeout=900)
+    util.mc_design(ck, "Ptrace", "MC_Ptrace_slow", "the same model with a thread that sits in vfork() when the dump starts (takes no signal and reports no stop until it wakes, at any moment): the attach is followed by a wait of unknown length; same invariants and liveness",
                    workers=4, timeout=900)
     # (a) the attach race under a signal flood, on the public suspend_thread / resume_thread
     fout = os.path.join(ck.work, "flood.ndjson")
@@ -986,7 +1006,7 @@ def c03(ck):
         e = hist[-1]
         if e["ev"] == "flood":
             return ({"tag": tag}, f"{e['cycles']} suspend/resume cycles under a flood of {e['sent']} queued signals: delivered {e['delivered']} (undecodable stops: {e['waitErr']}, re-injections: {e['reinjected']}), final state {e['state']} tracer {e['tracer']}")
-        bad = [t for t in e["threads"] if t["alive"] and (t["tracer"] != 0 or t["state"] in ("T", "t") or (t["heartbeat"] and not t["hbAdvancing"]) or t["gotRt"] != t["sentRt"])]
+        bad = [t for t in e["threads"] if t["alive"] and (t["tracer"] != 0 or t.get("tracerAtReturn", 0) != 0 or t["state"] in ("T", "t") or (t["heartbeat"] and not t["hbAdvancing"]) or t["gotRt"] != t["sentRt"])]
         return ({"tag": tag}, f"after schedule {e['origin']} (dump outcomes {e['outcomes']}, worker {e['worker']}): threads {json.dumps(bad)[:400]}")
     v = util.judge_batch(ck, "Trace_Ptrace", out, "end state of the target (/proc State, TracerPid, heartbeats, handler counters) after suspend/resume cycles under a queued-signal flood and after dumps under environment schedules: a signal at each hook point / destination call, bursts, destination failures, hard errors, thread exits, repeated dumps",
                          "Ptrace", describe, traces=len(evs))
@@ -1014,6 +1034,8 @@ def ptrace_seq_events(run, d):
     steps = d.get("steps", [])
     if any(s.get("k") == "send" and s.get("sig") != "rt" for s in steps) or end.get("pretraced") or scn["target"].get("leader_exits"):
         return None
+    if any(t.get("mode") == "vfork" for t in scn["target"].get("threads", [])):
+        return None          # (when the thread wakes is not recorded; MC_Ptrace_slow covers the schedules, Trace_Ptrace the end state)
     tids = sorted({report["pid"]} | {t["tid"] for t in report["threads"]})
     tids.remove(report["pid"])
     order = [report["pid"]] + tids
